@@ -182,6 +182,14 @@ def decide(conds, timeout_ms=20000, label="", want_model=True, sample=True):
         status = str(r)
     except z3.Z3Exception as e:  # pragma: no cover
         status = "unknown"
+    if status == "unknown" and timeout_ms <= 60000:
+        # a time-out under machine load is not a verdict: one retry with four times the budget before reporting `unknown`
+        STATS["retries"] = STATS.get("retries", 0) + 1
+        s.set("timeout", int(timeout_ms) * 4)
+        try:
+            status = str(s.check())
+        except z3.Z3Exception:  # pragma: no cover
+            status = "unknown"
     env = None
     if status == "sat" and want_model:
         env = _model_env(s.model(), enc)
